@@ -10,7 +10,7 @@ if [ -f "$P" ]; then
 else
   git -C /repo worktree add -q --detach $WT "$P"
 fi
-cd "$(dirname "$0")/.."
+cd "$(dirname "$0")/.."; mkdir -p /tmp/w
 set +e
 VERIF_REPO_SRC=$WT/src ./check $C --tier $T > /tmp/w/seedrun.$$.out 2>&1; rc=$?
 # keep the real evidence file untouched by mutation runs
